@@ -254,6 +254,36 @@ def v5Cwp (proto : String) (cb : UInt8) (rl : Nat) (bs : Bytes) : String :=
     | .panic s => s!"panic[{s}]"
   | _, _ => "bad-op"
 
+/-- `valid <fam> <packet>`: is the packet in the model's valid domain, and does the model
+round-trip it (async decoder on encoding ++ one extra byte)?  Keeps the harness generator,
+the `valid` predicate and the C01 statement in step. -/
+def v3Valid (debug : Bool) (toks : List String) : String :=
+  match V3.parsePacket toks with
+  | .ok p =>
+    let rt := match p.encode debug with
+      | .ok vb => match V3.decodeAsync debug (vb.asRef ++ [0xc0]) with
+        | .ok q rest => q.show == p.show && rest == [0xc0]
+        | _ => false
+      | _ => false
+    s!"valid={b01 p.valid} rt={b01 rt}"
+  | .unconstructible w => s!"unconstructible {w}"
+  | .syntax => "bad-op"
+
+def v5Valid (debug : Bool) (toks : List String) : String :=
+  match V5.parsePacket toks with
+  | .ok p =>
+    let fits := match p.encodeLen with
+      | .ok _ => true
+      | _ => false
+    let rt := match p.encode debug with
+      | .ok vb => match V5.decodeAsync debug (vb.asRef ++ [0xc0]) with
+        | .ok q rest => q.show == p.show && rest == [0xc0]
+        | _ => false
+      | _ => false
+    s!"valid={b01 (p.valid && fits)} rt={b01 rt}"
+  | .unconstructible w => s!"unconstructible {w}"
+  | .syntax => "bad-op"
+
 def withHex (h : String) (f : Bytes → String) : String :=
   match bytesOfHex h with
   | some bs => f bs
@@ -282,6 +312,8 @@ def stepRaw (debug : Bool) (line : String) : String :=
     | some sc, some t => withHex h fun bs => v3Poll debug bs sc t
     | _, _ => "bad-op"
   | ["cwp", "v3", p, h] => withHex h (v3Cwp p)
+  | "valid" :: "v3" :: toks => v3Valid debug toks
+  | "valid" :: "v5" :: toks => v5Valid debug toks
   | ["dec", "v5", h] => withHex h (v5Dec debug)
   | ["deca", "v5", h, t] => match parseTerm5 t with
     | some t => withHex h fun bs => v5ShowOut (V5.runAsync (V5.decodeAsync debug) bs t)
